@@ -39,6 +39,10 @@ use serde_json::{Value, json};
 
 use crate::rng::Rng;
 
+/// AIR-level malicious prover against the arity-2 gadget (real `prove_all_tables` / `verify_all_tables`).
+#[path = "c08_forge.rs"]
+mod forge;
+
 type F = KoalaBear;
 type CF = BinomialExtensionField<F, 4>;
 const P: u64 = 2130706433;
@@ -902,8 +906,36 @@ pub fn main(args: &crate::Args) {
     }
     cx.cases.flush().unwrap();
     cx.implo.flush().unwrap();
+    // malicious-prover experiment (no model counterpart: implementation oracle only). `--forge N` generated
+    // groups; corpus / replay files with a "forge" or "forge_acc" key are replayed first.
+    let nforge = args.u64("forge", 0) as usize;
+    let mut fixed: Vec<Value> = vec![];
+    if let Some(dir) = args.opt("corpus") {
+        let mut files: Vec<_> = std::fs::read_dir(&dir).map(|d| d.filter_map(|e| e.ok()).map(|e| e.path()).collect()).unwrap_or_default();
+        files.sort();
+        for f in files {
+            let Ok(txt) = std::fs::read_to_string(&f) else { continue };
+            let Ok(v) = serde_json::from_str::<Value>(&txt) else { continue };
+            let v = if v.get("forge").is_some() || v.get("forge_acc").is_some() { v } else { v["replay"].clone() };
+            if v.get("forge").is_some() || v.get("forge_acc").is_some() {
+                fixed.push(v);
+            }
+        }
+    }
+    let mut forge_eval = 0usize;
+    let mut forge_records: Vec<Value> = vec![];
+    if nforge > 0 || !fixed.is_empty() {
+        let fx = forge::run(seed, nforge, &fixed);
+        forge_eval = fx.evaluations;
+        for (k, v) in fx.hist {
+            *cx.hist.entry(k).or_default() += v;
+        }
+        cx.violations.extend(fx.violations);
+        forge_records = fx.records;
+    }
     let report = json!({"evaluations": cx.evaluations, "distinct": cx.distinct.len(), "hist": cx.hist,
-        "samples": cx.samples, "violations": cx.violations, "seed": seed});
+        "samples": cx.samples, "violations": cx.violations, "seed": seed,
+        "forge_evaluations": forge_eval, "forge_records": forge_records});
     std::fs::write(format!("{out}/mmcs.report.json"), serde_json::to_string_pretty(&report).unwrap()).unwrap();
-    println!("mmcs: evaluations={} violations={}", cx.evaluations, cx.violations.len());
+    println!("mmcs: evaluations={} forge_evaluations={} violations={}", cx.evaluations, forge_eval, cx.violations.len());
 }
